@@ -639,7 +639,7 @@ def run_aligned(prog, rep, floor=6):
 
 
 # ---------------------------------------------------------------- R-OUTPAIR
-def run_outpair(prog, rep, floor=2):
+def run_outpair(prog, rep, floor=1):
     """R-OUTPAIR (C05j): a function that answers through several reference out-parameters sets them together: in every if / else-if
     chain, each arm that writes one of the out-parameters writes all the out-parameters any arm writes.  An arm that leaves one of
     them alone hands the caller the value of a previous call (callers reuse one local pair across a loop over dimensions)."""
@@ -692,6 +692,6 @@ def run_outpair(prog, rep, floor=2):
                          '(the caller reuses the same locals for every dimension)' % (sorted(w), sorted(union), sorted(union - w)))
             else:
                 rule.ok(key, rep.where(node), f.label(), 'all %d writing arms write %s' % (len(nonempty), sorted(union)))
-    if n < floor:
-        raise AnalysisBroken('R-OUTPAIR: only %d if-chains writing out-parameters found' % n)
+    if n < floor or not any(i.key.startswith('R-OUTPAIR|nix::util::getMaxExtent') or i.key.startswith('nix::util::getMaxExtent') for i in rule.instances):
+        raise AnalysisBroken('R-OUTPAIR: the confirmed instance (getMaxExtent: pos/ext per dimension type) was not found (%d chains)' % n)
     return rule
